@@ -246,6 +246,27 @@ func rangesAllOf(ia *ssa.IndexAddr, srcKey string) bool {
 		}
 	}
 	if !okSrc {
+		// a whole copy made in one call: slices.Clone(src), append([]T(nil), src...)
+		isField := func(v ssa.Value) bool {
+			if u, ok := resolve(v).(*ssa.UnOp); ok && u.Op == token.MUL {
+				if fa, ok := u.X.(*ssa.FieldAddr); ok && "field:"+fieldName(fa.X.Type(), fa.Field) == srcKey {
+					return true
+				}
+			}
+			return false
+		}
+		if call, ok := s.(*ssa.Call); ok {
+			if cal := call.Call.StaticCallee(); cal != nil && fnPkgPath(cal) == "slices" && strings.HasPrefix(cal.Name(), "Clone") && len(call.Call.Args) == 1 && isField(call.Call.Args[0]) {
+				okSrc = true
+			}
+			if bi, isB := call.Call.Value.(*ssa.Builtin); isB && bi.Name() == "append" && len(call.Call.Args) == 2 && isField(call.Call.Args[1]) {
+				if k, isK := call.Call.Args[0].(*ssa.Const); isK && k.Value == nil {
+					okSrc = true
+				}
+			}
+		}
+	}
+	if !okSrc {
 		return false
 	}
 	// index is t+1 of a phi starting at -1, bounded by len(s)
